@@ -121,7 +121,7 @@ inline int enum_finish(enum_feat_fn fname, const std::string &extra_json) {
       printf("VF-REPLAY unknown case key: %s\n", e.replay_key.c_str());
       return 3;
     }
-    if (e.stop) {
+    if (e.stop && !e.fail_key.empty()) {
       printf("VF-REPLAY fail prop=%s target=%s case=%s msg=%s\n", e.prop, e.target, e.fail_key.c_str(), e.fail_msg.c_str());
       return 1;
     }
